@@ -169,6 +169,7 @@ func VerifWriteEffect() {
 	dmaBusy := s.o.VerifDmaRunning()
 	apuOn := s.a.ReadNR52()&0x80 != 0
 	ch3On := s.a.VerifCh3On()
+	waveOK := s.a.VerifWaveAccessible()
 	reloading := s.t.VerifReloading()
 
 	m.Write(a1, v)
@@ -189,6 +190,14 @@ func VerifWriteEffect() {
 		if !dmaBusy {
 			vAssert("rb-oam-plain-memory", after1 == v)
 		}
+		if !dmaBusy && !s.p.VerifEnabled() {
+			// LCD off: the CPU's end-of-cycle corruption pass (which follows every access) leaves OAM alone
+			s.o.Corrupt()
+			vAssert("rb-oam-plain-memory-lcd-off", m.Read(a1) == v)
+			if a2 >= 0xfe00 && a2 < 0xfea0 && a2 != a1 {
+				vAssert("rb-oam-others-kept-lcd-off", m.Read(a2) == before2)
+			}
+		}
 	case clsEcho:
 		vAssert("rb-echo", after1 == v && m.Read(a1-0x2000) == v)
 	case clsUnusable:
@@ -200,6 +209,10 @@ func VerifWriteEffect() {
 	case clsWave:
 		if !ch3On {
 			vAssert("rb-wave-ram", after1 == v)
+		} else if waveOK {
+			vAssert("rb-wave-ram-while-playing", after1 == v) // the byte the channel is reading is the one the CPU reaches
+		} else {
+			vAssert("rb-wave-ram-locked", after1 == 0xff && before1 == 0xff)
 		}
 	case clsReg:
 		if a1 == IE {
@@ -230,6 +243,47 @@ func VerifWriteEffect() {
 	}
 	if cls == clsWRAM && a1 < 0xde00 {
 		vAssert("rb-echo-of-wram", m.Read(a1+0x2000) == v)
+	}
+	vReach("end")
+}
+
+// may a machine cycle of component `what` change what a2 reads? (time-varying registers only)
+func cycleAllowed(what int, a2 uint16, kind int) bool {
+	switch what {
+	case 0: // memory system: DMA progress (OAM window), nothing else
+		return inRange(a2, 0xfe00, 0xfeff)
+	case 1: // video: LY, STAT mode/coincidence, IF
+		return a2 == LY || a2 == STAT || a2 == IF
+	case 2: // audio: channel status bits, and wave RAM as seen while channel 3 plays
+		return a2 == NR52 || inRange(a2, 0xff30, 0xff3f)
+	case 3: // timer
+		return a2 == DIV || a2 == TIMA
+	}
+	return false
+}
+
+// VerifCycleFrame (C06/C07): a machine cycle of each component changes no readable location except the documented
+// time-varying ones; so a value written stays readable until it is written again (e.g. FF46 after the transfer ends)
+func VerifCycleFrame() {
+	what := vCfg("what")
+	s := newVerifSystem(uint8(vCfg("type")), uint8(vCfg("rom")), uint8(vCfg("ram")))
+	s.havocAll()
+	kind := cartKind(s.m.mbc)
+	a2 := vU16("a2")
+	before := s.m.Read(a2)
+	switch what {
+	case 0:
+		s.m.EndMachineCycle()
+	case 1:
+		s.p.EndMachineCycle()
+	case 2:
+		s.a.EndMachineCycle()
+	case 3:
+		s.t.EndMachineCycle()
+	}
+	after := s.m.Read(a2)
+	if after != before {
+		vAssert("frame-cycle-only-time-varying-locations-change", cycleAllowed(what, a2, kind))
 	}
 	vReach("end")
 }
